@@ -322,6 +322,19 @@ class World:
             pv = parse_dec(price)
             if pv is not None and pv > 0:
                 price = price_str(int(pv * 10 ** c.precision), c.precision, rng) if (pv * 10 ** c.precision).denominator == 1 else price
+        if rng.random() < 0.07:
+            # an execution price a hair away from a limit price, with more decimals than the precision allows, and a
+            # size on which that price still gives a whole total
+            pv = parse_dec(price)
+            if pv is not None and pv > 0:
+                extra = rng.choice([1, 2])
+                scale = c.precision + extra
+                delta = rng.choice([-4, -1, 1, 4, 5, -5]) * (1 if extra == 1 else rng.choice([1, 10]))
+                units = int(pv * 10 ** scale) + delta
+                if units > 0:
+                    price = price_str(units, scale, rng)
+                    g = 10 ** scale
+                    size = g * rng.randint(1, max(1, m // g)) if m >= g else size
         sender = rng.choice(c.executors) if c.executors else rng.choice(self.accounts)
         return dict(kind="execute_match", sender=sender, ask_id=a.key, bid_id=b.key, price=price, size=size,
                     funds=[])
